@@ -255,7 +255,7 @@ class TickRateAttribute:
 
   qn = f"{{{ns.TTP}}}tickRate"
 
-  _TICK_RATE_RE = re.compile(r"(\d+)")
+  _TICK_RATE_RE = re.compile(r"([0-9]+)")
 
   @staticmethod
   def extract(ttml_element) -> int:
@@ -264,9 +264,9 @@ class TickRateAttribute:
 
     if tr is not None:
 
-      m = TickRateAttribute._TICK_RATE_RE.match(tr)
+      m = TickRateAttribute._TICK_RATE_RE.fullmatch(tr)
 
-      if m is not None:
+      if m is not None and int(m.group(1)) > 0:
 
         return int(m.group(1))
 
@@ -274,8 +274,12 @@ class TickRateAttribute:
 
     # default value: the effective frame rate if ttp:frameRate is specified, one tick per second otherwise
 
-    if ttml_element.attrib.get(FrameRateAttribute.frame_rate_qn) is not None:
-      return FrameRateAttribute.extract(ttml_element)
+    fr_raw = ttml_element.attrib.get(FrameRateAttribute.frame_rate_qn)
+
+    if fr_raw is not None:
+      m = FrameRateAttribute._FRAME_RATE_RE.fullmatch(fr_raw)
+      if m is not None and int(m.group(1)) > 0:
+        return FrameRateAttribute.extract(ttml_element)
 
     return 1
 
@@ -358,9 +362,9 @@ class FrameRateAttribute:
 
   frame_rate_multiplier_qn = f"{{{ns.TTP}}}frameRateMultiplier"
 
-  _FRAME_RATE_RE = re.compile(r"(\d+)")
+  _FRAME_RATE_RE = re.compile(r"([0-9]+)")
 
-  _FRAME_RATE_MULT_RE = re.compile(r"(\d+) (\d+)")
+  _FRAME_RATE_MULT_RE = re.compile(r"([0-9]+) ([0-9]+)")
 
   @staticmethod
   def extract(ttml_element) -> Fraction:
@@ -373,9 +377,9 @@ class FrameRateAttribute:
 
     if fr_raw is not None:
 
-      m = FrameRateAttribute._FRAME_RATE_RE.match(fr_raw)
+      m = FrameRateAttribute._FRAME_RATE_RE.fullmatch(fr_raw)
 
-      if m is not None:
+      if m is not None and int(m.group(1)) > 0:
 
         fr = Fraction(m.group(1))
 
@@ -391,9 +395,9 @@ class FrameRateAttribute:
 
     if frm_raw is not None:
 
-      m = FrameRateAttribute._FRAME_RATE_MULT_RE.match(frm_raw)
+      m = FrameRateAttribute._FRAME_RATE_MULT_RE.fullmatch(frm_raw)
 
-      if m is not None:
+      if m is not None and int(m.group(1)) > 0 and int(m.group(2)) > 0:
 
         frm = Fraction(int(m.group(1)), int(m.group(2)))
 
